@@ -214,12 +214,18 @@ RECURSIVE NodesWithId(_, _)
 NodesWithId(t, id) == (IF t.id = id THEN <<t>> ELSE <<>>) \o Flat([i \in 1..Len(t.kids) |-> NodesWithId(t.kids[i], id)])
 Contains(big, small) == \E k \in 0..(Len(big) - Len(small)) : SubSeq(big, k + 1, k + Len(small)) = small
 VisL(t) == Vis(t, "loose")             \* a token looked at on its own: position-dependent normalisations merged
-AuthorIdKept(out, tok) == \E n \in ToSet(NodesWithId(out, tok.id)) : Contains(VisL(n), VisL(tok))
+\* (the raw text counts as well: '_' merged with a following blank is '_ ', whose loose reading differs from that of a lone '_')
+AuthorIdKept(out, tok) == \E n \in ToSet(NodesWithId(out, tok.id)) : Contains(VisL(n), VisL(tok)) \/ (tok.cp # <<>> /\ Contains(n.cp, tok.cp))
 \* the clause is asserted for tokens whose text survives inside ONE token of the output; a token that canonicalization
 \* splits into several tokens (-2 -> - 2, NaCl -> Na Cl, x' -> x ') has no single "element carrying that token's text"
 RECURSIVE Leaves(_)
 Leaves(t) == IF IsLeaf(t) THEN <<t>> ELSE Flat([i \in 1..Len(t.kids) |-> Leaves(t.kids[i])])
 \* ... and a token merged with its neighbours (number blocks, primes, dots) survives only as part of a longer token,
 \* which keeps the id of one of the merged tokens; both cases are outside the asserted clause.
-SurvivesInOneToken(out, tok) == \E n \in ToSet(Leaves(out)) : VisL(n) = VisL(tok) /\ Len(n.cp) = Len(tok.cp)
+\* Which output token IS the input token is decided by its text, so the text must not be ambiguous: when another token of the
+\* same (loosely normalised) text was merged or split away - '_' '_' -> '__' next to a '-' - the one that is left need not be this one.
+\* The clause is asserted when the output has at least as many tokens of this text as the input.
+SameText(n, tok) == VisL(n) = VisL(tok) /\ Len(n.cp) = Len(tok.cp)
+CountSame(t, tok) == Len(SelectSeq(Leaves(t), LAMBDA n : SameText(n, tok)))
+SurvivesInOneToken(out, tok, inp) == CountSame(out, tok) >= 1 /\ CountSame(out, tok) >= CountSame(inp, tok)
 =============================================================================
